@@ -19,7 +19,8 @@ class RunnerBasics(Harness):
     nontrivial_event = "at least one fill happened in the run"
     props = ("C05", "C10", "C11")
     reach = ("nontrivial", "self-trade", "multi-fill-round")
-    assumptions = (
+    assumptions = (rn.REDUCTION_NOTE,
+                   
         "scripted agents stand for arbitrary user agents within the bound of orders per consultation",
         "the runner's random.Random is replaced by a stub whose sample() returns any permutation and whose "
         "random() returns any real in [0,1); randint (child seeds) is a counter",
